@@ -30,8 +30,8 @@ RULE = ('operations: w/a/x = write key A (two slices / slice+startAppending+slic
         'u/v = openForUpdating + fresh one-slice prefix + closeForUpdating / abortUpdating; 6 anchors, 6 slices, map initially empty or '
         'holding a complete two-slice entry A. quick: all pairs of single operations (fine steps, 1 preemption; atomic steps, 2 '
         'preemptions), all pairs of two-operation scripts over {x,r,d,u} (fine, 1), all triples over {x,r,d} (2). thorough: pairs fine 2 '
-        '/ atomic 3, two-operation scripts over {a,x,r,d,u,b,q} fine 1 and over {a,x,r,d,u} atomic 2, all triples over {a,x,b,r,d,u,v} (2), '
-        'triples over {r,d,u} (3). Every '
+        '/ atomic 3, two-operation scripts over {a,x,r,d,u,b,q} fine 1 and over {a,x,r,d,u} atomic 2, all triples over {a,x,b,r,d,u,v} (2). Every '
+        '
         'schedule within the bound runs the real StoreMap code')
 
 
@@ -75,7 +75,7 @@ def _result(ctx, m):
         'traces_validated_against_impl': c.get('executions', 0),
         'scenarios': m['evaluations'], 'scenarios_completed_at_bound': c.get('scenarios_completed_at_bound', 0),
         'bound_completed': ('2 preemptions (1 in the fine-grained and two-operation scenarios)' if ctx.quick else
-                            '3 preemptions (2 in the fine-grained / all-triples scenarios, 1 for fine-grained two-operation scripts)')
+                            '3 preemptions for pairs at atomic granularity (2 in the fine-grained, two-operation and three-process scenarios, 1 for fine-grained two-operation scripts)')
         if not partial else 'partial',
         'executions_abandoned_at_known_findings': c.get('executions_abandoned_at_known_findings', 0),
         'steps_per_plan': {k: v for k, v in c.items() if k.startswith('plan')},
